@@ -184,7 +184,7 @@ def check_c02(chk, rng):
     progs = []
     for i in range(n):
         p = P.random_program(rng, i + 1, max_nodes=6, horizon=rng.choice([5, 7, 9]),
-                             kinds=("delay", "echo", "echo", "pass", "acc", "sum2", "sample", "sumu"))
+                             kinds=("delay", "echo", "echo", "pass", "acc", "sum2", "sample", "sumu", "sample2", "lsum"))
         for nd in p["nodes"]:
             if nd["kind"] == "src" and rng.random() < 0.5:
                 nd["mode"] = "all"
@@ -567,7 +567,7 @@ def check_c13(chk, rng):
 def check_c09(chk, rng):
     n = 200 if chk.tier == "quick" else 3000
     fam = rand_family(rng, n, 1, chk, "rand", max_nodes=7, horizon=7,
-                      kinds=("pass", "add", "acc", "count", "delay", "echo", "echo", "sum2", "sumu", "sample"))
+                      kinds=("pass", "add", "acc", "count", "delay", "echo", "echo", "sum2", "sumu", "sample", "sample2", "sampleu", "lsum", "lsumv"))
     cases, groups = [], []
     for p, pred in fam:
         gs = P.candidate_groups(p)
